@@ -9,7 +9,8 @@ use vstd::std_specs::iter::IteratorSpec;
 // (url::Url: prelude/url_foreign.rs)
 
 macro_rules! opaque { ($($n:ident),*) => { $( pub struct $n { _p: u64 } impl Clone for $n { fn clone(&self) -> Self { unimplemented!() } } )* } }
-opaque!(SystemTime, CacheInfo, ImportAttributes, SpecifierError, ResolveError, ModuleLoadError, JsErrorBox, WasmParseError, NpmPackageReqReference, FastCheckDiagnostic, FastCheckDtsModule, PackageSpecifiers);
+#[derive(Clone, Copy)] pub struct SystemTime { _p: u64 }
+opaque!(CacheInfo, ImportAttributes, SpecifierError, ResolveError, ChecksumIntegrityError, LoadError, JsrLoadError, NpmLoadError, JsErrorBox, WasmParseError, NpmPackageReqReference, FastCheckDiagnostic, FastCheckDtsModule, PackageSpecifiers);
 pub trait JsErrorClass {}
 pub mod wasm_dep_analyzer { pub use super::WasmParseError as ParseError; }
 pub mod fast_check { pub use super::{FastCheckDiagnostic, FastCheckDtsModule}; }
@@ -50,7 +51,11 @@ verus! {
 #[verifier::external_type_specification] #[verifier::external_body] pub struct ExImportAttributes(ImportAttributes);
 #[verifier::external_type_specification] #[verifier::external_body] pub struct ExSpecifierError(SpecifierError);
 #[verifier::external_type_specification] #[verifier::external_body] pub struct ExResolveError(ResolveError);
-#[verifier::external_type_specification] #[verifier::external_body] pub struct ExModuleLoadError(ModuleLoadError);
+#[verifier::external_type_specification] #[verifier::external_body] pub struct ExChecksumIntegrityError(ChecksumIntegrityError);
+#[verifier::external_type_specification] #[verifier::external_body] pub struct ExLoadError(LoadError);
+#[verifier::external_type_specification] #[verifier::external_body] pub struct ExJsrLoadError(JsrLoadError);
+#[verifier::external_type_specification] #[verifier::external_body] pub struct ExNpmLoadError(NpmLoadError);
+#[verifier::external_type_specification] #[verifier::external_body] pub struct ExIoError(std::io::Error);
 #[verifier::external_type_specification] #[verifier::external_body] pub struct ExJsErrorBox(JsErrorBox);
 #[verifier::external_type_specification] #[verifier::external_body] pub struct ExWasmParseError(WasmParseError);
 #[verifier::external_type_specification] #[verifier::external_body] pub struct ExNpmPackageReqReference(NpmPackageReqReference);
